@@ -156,6 +156,7 @@ class Summariser:
         self.counters = dict(counter_ids or {})
         self.scan_calls = scan_calls
         self.byte_ptrs = set(byte_ptr_ids)
+        self.len_calls = ()
 
     # -- expression level ----------------------------------------------------
     def expr_effects(self, e, S):
@@ -182,6 +183,8 @@ class Summariser:
                         elif t.get("kind") == "CallExpr" and A.callee_name(t) == "strlen" and sign == 1:
                             S.add("strlen")
                         elif t.get("kind") == "DeclRefExpr" and sign == 1:
+                            S.add("len")
+                        elif t.get("kind") == "CallExpr" and A.callee_name(t) in self.len_calls and sign == 1:
                             S.add("len")
                         else:
                             raise Unrecognised("cursor advanced by unrecognised term `%s` at %s" % (A.src(t), A.where(x)))
